@@ -19,10 +19,12 @@ pub mod c02;
 pub mod c03;
 pub mod c04;
 pub mod c05;
+pub mod c08;
 pub mod c09;
 pub mod c11;
 pub mod c12;
 pub mod c14;
+pub mod c15;
 pub mod c18;
 pub mod c19;
 pub mod rawnode;
